@@ -23,6 +23,7 @@ RULE = ("distributions with 1..12 keys, 1..4 topologies, entries 0..6, positive 
         "always refers to the distribution current at the time of the call; non-trivial = at least one column needed extra stubs; "
         "distinct = SHA-1 of (keys, weights, sizes, N, schedule)")
 RULE += ("; rounds k-l added: " + 'degrees beyond a machine word (entries up to 2**63+5, totals beyond 2**63)')
+RULE += '; round m: the motif_sizes setter assigned the very list the loader already holds (35% of the setter steps)'
 ASSUMPTIONS = ["raw draws are observed through random.choices in joint_degree.py; if that hook is not seen the minimality clause "
                "falls back to: every entry dominates some key and the total distance to the nearest dominated keys is at most sum(size_i - 1)",
                "key frequencies: Pearson chi-square two-stage protocol on N=20000"]
